@@ -138,6 +138,14 @@ fn shader(seed: u64, i: usize) -> (String, Vec<(String, usize)>) {
     prelude.push_str("struct VIn0 { @location(0) a: vec3<f32>, @builtin(vertex_index) vi: u32, @location(4) b: vec2<u32> }\nstruct VIn1 { @location(9) c: f32 }\nstruct VInstance { @location(2) m: vec4<f32>, @builtin(instance_index) ii: u32 }\n");
     // structs whose members are ALL builtins: still struct parameters, so they count for VertexEntry<n>
     prelude.push_str("struct VIdxBoth { @builtin(vertex_index) vertex: u32, @builtin(instance_index) instance: u32 }\nstruct VIdxV { @builtin(vertex_index) v: u32 }\nstruct VIdxI { @builtin(instance_index) i: u32 }\n");
+    // `alias` spellings: naga gives `Color` / `Index` a NAME (named vector / scalar types, distinct from the plain ones); an alias
+    // of a struct is the struct's own type handle. Parameters with a @location / @builtin binding are not struct parameters
+    // however their type is spelled, and `s: VAlias1` is the struct parameter `s: VIn1`.
+    let alias_text = "alias Color = vec4<f32>;\nalias Index = u32;\nalias VAlias1 = VIn1;\n";
+    let aliases_last = rng.chance(1, 3);
+    if !aliases_last {
+        prelude.push_str(alias_text);
+    }
     for _ in 0..counts[0] {
         let name = next_name(&mut rng);
         let mut params: Vec<String> = vec![];
@@ -154,19 +162,24 @@ fn shader(seed: u64, i: usize) -> (String, Vec<(String, usize)>) {
             if (*v && has_v) || (*ii && has_i) {
                 continue;
             }
-            params.push(format!("s{}: {s}", params.len()));
+            let spelled = if *s == "VIn1" && rng.chance(1, 2) { "VAlias1" } else { *s };
+            params.push(format!("s{}: {spelled}", params.len()));
             has_v |= *v;
             has_i |= *ii;
         }
         // ... and loose builtin parameters only for those no chosen struct carries
         if !has_v && rng.chance(1, 2) {
-            params.push("@builtin(vertex_index) vidx: u32".into());
+            params.push(format!("@builtin(vertex_index) vidx: {}", if rng.chance(1, 2) { "Index" } else { "u32" }));
         }
         if !has_i && rng.chance(1, 2) {
-            params.push("@builtin(instance_index) iidx: u32".into());
+            params.push(format!("@builtin(instance_index) iidx: {}", if rng.chance(1, 3) { "Index" } else { "u32" }));
         }
         if rng.chance(1, 2) {
-            params.push(format!("@location({}) loose: vec4<f32>", 12 + rng.below(3)));
+            params.push(format!("@location({}) loose: {}", 12 + rng.below(3), if rng.chance(1, 2) { "Color" } else { "vec4<f32>" }));
+        }
+        // a second loose value, always through the alias (two parameters of one named non-struct type)
+        if rng.chance(1, 6) {
+            params.push("@location(15) tint: Color".into());
         }
         rng.shuffle(&mut params);
         decls.push(format!("@vertex\nfn {name}({}) -> @builtin(position) vec4<f32> {{ return vec4<f32>(0.0); }}\n", params.join(", ")));
@@ -199,6 +212,9 @@ fn shader(seed: u64, i: usize) -> (String, Vec<(String, usize)>) {
     for d in decls {
         body.push_str(&d);
     }
+    if aliases_last {
+        body.push_str(alias_text);
+    }
     (format!("{prelude}{body}"), truth)
 }
 
@@ -207,7 +223,7 @@ impl Property for C14 {
         "C14"
     }
     fn rule(&self) -> &'static str {
-        "Seeded shaders with 0-3 entry points per stage under mixed-case / underscore / non-ASCII names; compute sizes with 1-3 dimensions from literals and constants; fragment results: none, scalar/vector at @location(k) incl. k>0, builtins only, structs with sparse/unordered/descending locations and interleaved builtins, second_blend_source pairs; vertex parameters mixing struct inputs (incl. structs whose members are all @builtin, alone and next to attribute structs), builtins and loose @location values; oracle = naga EntryPoint data: ENTRY_{UPPER} constants with the exact name, {UPPER}_WORKGROUP_SIZE = naga's workgroup_size and create_{name}_pipeline targeting Some(name) with the module's own shader/layout, fragment {name}_entry asks for 1 + max written @location targets (0 if none; cross-checked with the generator's own location list), vertex {name}_entry returns VertexEntry<n> for n struct-typed binding-less parameters, vertex_state/fragment_state forward module, entry name, buffers/targets, constants."
+        "Seeded shaders with 0-3 entry points per stage under mixed-case / underscore / non-ASCII names; compute sizes with 1-3 dimensions from literals and constants; fragment results: none, scalar/vector at @location(k) incl. k>0, builtins only, structs with sparse/unordered/descending locations and interleaved builtins, second_blend_source pairs; vertex parameters mixing struct inputs (incl. structs whose members are all @builtin, alone and next to attribute structs), builtins and loose @location values, the bound parameters' types also spelled through `alias` (named vector / scalar types) and a struct parameter through an alias of the struct; oracle = naga EntryPoint data: ENTRY_{UPPER} constants with the exact name, {UPPER}_WORKGROUP_SIZE = naga's workgroup_size and create_{name}_pipeline targeting Some(name) with the module's own shader/layout, fragment {name}_entry asks for 1 + max written @location targets (0 if none; cross-checked with the generator's own location list), vertex {name}_entry returns VertexEntry<n> for n struct-typed binding-less parameters, vertex_state/fragment_state forward module, entry name, buffers/targets, constants."
     }
 
     fn cases(&self, seed: u64, tier: Tier) -> Vec<Case> {
